@@ -8,9 +8,9 @@ META = dict(
            'Hostile: all sizeof(T) body bytes arbitrary (64-bit lengths and pointer bits), payload of 0..PMAX arbitrary bytes (PMAX 4; 6 for M1 and M6 in the thorough tier), same fragmentations; '
            'body contiguous in the last element (FRAG 0, the payload tail may share that element) or cut strictly inside the body so that it is reassembled through the '
            'allocator (FRAG 1). The allocator of the input vector is a harness callback returning exact-size blocks (optionally failing symbolically).',
-    outside='messages with more than 3 variable-length fields or longer payloads; more than 3 iovec elements; sorted maps with more than one entry, sorted_map::find '
-            '(a solver counterexample that does not reproduce natively was left unresolved) and sorted_map_factory (std::vector / unique_ptr); aligned_iovec_array; '
-            'the CRC32C polynomial itself (see assumptions); under-reads in front of a piece (pieces are end-aligned: an access past the end of a piece is out of bounds for the '
+    outside='messages with more than 3 variable-length fields or longer payloads; more than 3 iovec elements; sorted maps with more than one entry or keys longer than one character; sorted_map_factory (std::vector / unique_ptr; the '
+            'round trip lays the map out by hand the way the factory does); aligned_iovec_array; '
+            'the CRC32C table code itself (common/checksum/crc.cpp does not compile with clang: unbalanced #pragma clang attribute pop at line 770; its table lives in malloc memory built at run time); under-reads in front of a piece (pieces are end-aligned: an access past the end of a piece is out of bounds for the '
             'solver, an access in front of its start is caught only by the explicit checks that every result field denotes exactly its bytes of the stream)',
     assumptions=['crc32c_extend (function pointer crc32c_auto) is bound to a recording byte-sequential fold c -> rotl(c, 8) ^ byte ^ 0x5a instead of the CRC32C table code: '
                  'the checks state which bytes are hashed, in which order, that calls are chained, and that validate accepts iff the stored value equals the final value',
@@ -79,9 +79,9 @@ def jobs(tier):
     # sorted_map
     SM = ['BLEN=10']
     SMU = ['f_harness_sortedmap.%d:12' % i for i in range(3)]     # the harness loop that reads the key bytes
-    J.append(gen(5, 'sortedmap', 0, 0, 42, extra=SM + ['SM_MODE=1'], name='sortedmap_wellformed', un=4, us_extra=SMU, nullgep=True, to=to,
-                 desc='received sorted_map whose index entry lies inside the base buffer: begin/end/operator-> return the denoted key and value'))
-    J.append(gen(5, 'sortedmap', 0, 0, 42, extra=SM + ['SM_MODE=2'], name='sortedmap_roundtrip', un=4, us_extra=SMU, nullgep=True, to=to,
+    J.append(gen(5, 'sortedmap', 0, 0, 42, extra=SM + ['SM_MODE=1', 'SM_FIND'], name='sortedmap_wellformed', un=4, us_extra=SMU, nullgep=True, to=to,
+                 desc='received sorted_map whose index entry lies inside the base buffer: begin/end/operator->/find return the denoted key and value'))
+    J.append(gen(5, 'sortedmap', 0, 0, 42, extra=SM + ['SM_MODE=2', 'SM_FIND'], name='sortedmap_roundtrip', un=4, us_extra=SMU, nullgep=True, to=to,
                  desc='one-entry sorted_map laid out like sorted_map_factory, serialized, deserialized, read back'))
     j = gen(5, 'sortedmap', 0, 0, 42, extra=SM + ['SM_MODE=0'], name='hostile_sortedmap', un=4, us_extra=SMU, nullgep=True, to=to,
             desc='received sorted_map with an arbitrary index entry: the library accessors must stay inside the supplied bytes (FAILS: slice::anchor only assert()s its bounds)')
